@@ -305,6 +305,9 @@ func runC02(r *core.Run) {
 		})
 	}
 
+	// the cheaper, wider parts first: an internal deadline (thorough tier) then only cuts into the largest cross products
+	c02Reduced(r, redDts)
+	c02Nested(r, append([]ref.DT{ref.Float64}, redDts...))
 	for _, sw := range sweeps {
 		for _, shape := range sw.shapes {
 			rank := len(shape)
@@ -403,8 +406,6 @@ func runC02(r *core.Run) {
 			}
 		}
 	}
-	c02Reduced(r, redDts)
-	c02Nested(r, append([]ref.DT{ref.Float64}, redDts...))
 }
 
 // c02Reduced: reduced alphabet, every width representative, Slice / SliceInto / Narrow, sources C,F,T,S,SS.
